@@ -351,7 +351,7 @@ func c05Cap(c *Ctx, ct collapsingType) {
 				}
 			}
 			switch {
-			case isLim(r) && compared:
+			case isLim(r): // the limit itself is always within the limit (whatever made the path choose it)
 			case isInner(r) && compared && ordered:
 			default:
 				ok = false
@@ -766,10 +766,41 @@ func c05MergeFold(c *Ctx, ct collapsingType) {
 			}
 			// value = same slot + o.bins[idx − o.offset]
 			var src *Term
+			guardBlk := b
 			if vt.isBin("+") {
 				for i := 0; i < 2; i++ {
 					if vt.Args[i].Key() == at.Key() {
 						src = vt.Args[1-i]
+					}
+				}
+			}
+			// or the same sum carried in a local: acc := slot; for … { acc += o.bins[…] }; slot = acc
+			if src == nil && vt.Op == "phi" {
+				var init, step *Term
+				for _, e := range tc.PhiEdges(vt) {
+					switch {
+					case e.unver().Key() == at.unver().Key():
+						init = e
+					case e.isBin("+"):
+						step = e
+					case e.Op == "phi": // the accumulator of the loop itself
+						for _, e2 := range tc.PhiEdges(e) {
+							if e2.unver().Key() == at.unver().Key() {
+								init = e2
+							} else if e2.isBin("+") {
+								step = e2
+							}
+						}
+					}
+				}
+				if init != nil && step != nil {
+					for i := 0; i < 2; i++ {
+						if step.Args[i].Op == "phi" && step.Args[1-i].Op == "index" {
+							src = step.Args[1-i]
+							if bo, ok := step.V.(*ssa.BinOp); ok {
+								guardBlk = bo.Block()
+							}
+						}
 					}
 				}
 			}
@@ -820,13 +851,13 @@ func c05MergeFold(c *Ctx, ct collapsingType) {
 				nEdge++
 				// the edge store must be guarded by "idx beyond the receiver's window": find a controlling condition
 				guarded := false
-				for d := b; d != nil; d = d.Idom() {
-					if iff, ok := d.Instrs[len(d.Instrs)-1].(*ssa.If); ok && d != b {
+				for d := guardBlk; d != nil; d = d.Idom() {
+					if iff, ok := d.Instrs[len(d.Instrs)-1].(*ssa.If); ok && d != guardBlk {
 						ctm := tc.Of(iff.Cond)
 						// which successor of the test leads to the store
 						branch := -1
 						for si, sc := range d.Succs {
-							if sc == b || sc.Dominates(b) {
+							if sc == guardBlk || sc.Dominates(guardBlk) {
 								if branch == -1 {
 									branch = si
 								} else {
